@@ -201,8 +201,8 @@ class Prog:
         go(self.items, self.crate)
         return ";".join(sorted(recs))
 
-    def line(self, acts, exe, ign="n", exact=False, pos=(), skip=(), sort="-"):
-        cfg = ",".join(["C", acts, ign, "e" if exact else "r", lst(pos), lst(skip), sort])
+    def line(self, acts, exe, ign="n", exact=False, pos=(), skip=(), sort="-", threads=()):
+        cfg = ",".join(["C", acts, ign, "e" if exact else "r", lst(pos), lst(skip), sort] + ([lst(threads)] if threads else []))
         extra = ["O," + enc(self.digest())] if "O" in acts else []
         return " ".join([cfg, "X," + enc(exe)] + extra + self.tokens())
 
@@ -456,6 +456,10 @@ pub mod support {
             "main" => divan::main(),
             "list_benches" => divan::Divan::from_args().list_benches(),
             "test_benches" => divan::Divan::from_args().test_benches(),
+            "main_threads_cfg" => {
+                let t: Vec<usize> = std::env::var("HX_THREADS").unwrap_or_default().split(',').filter(|s| !s.is_empty()).map(|s| s.parse().unwrap()).collect();
+                divan::Divan::from_args().threads(t).main()
+            }
             "dump" => dump(),
             "optdump" => optdump(),
             other => panic!("HX_API {other}"),
